@@ -440,7 +440,7 @@ def evidence(tier, seed, total):
     return {
         'level': LEVEL,
         'coverage': {
-            'rule': 'Enumeration tier: for every cell of the grid {size pair uu/su/us/ss (10 or 230 octets at max-APDU 50)} x {window} x '
+            'rule': '[additions since the first version: unconfirmed requests to the peer that owes an answer; follow-up requests submitted from inside outcome callbacks; a many-timers variant (3-6 peers, 60-300 s I/O timeouts, idle application timers of 2.5-900 s, peers dead from the start, latencies up to 0.9 s); in-run invariants: scheduler head = earliest pending entry, no finished transaction in the scheduler at any outcome] Enumeration tier: for every cell of the grid {size pair uu/su/us/ss (10 or 230 octets at max-APDU 50)} x {window} x '
                     '{retries} x {segmentation-support combination} x {direct, IOCB}, the fault-free run, EVERY single fault '
                     '(drop, duplicate now, duplicate after T_out, delay 1ms / T_seg / T_out / 2*T_out) at EVERY frame index, and for the '
                     'cells marked pairs every pair (drop, duplicate, delay T_out) at indices i<j of the faulted run. Exploration tier: runs '
